@@ -467,6 +467,33 @@ func C04Gen(r *Run) {
 			}
 		}
 	}
+	// (d) one bulk load of several hundred edges (more than a thousand key writes): the sizes at which a
+	// load might be committed in blocks (seed C04-l: a block boundary between the keys of ONE edge leaves,
+	// after a crash, an edge record whose by-destination entry is missing).  Every cut until it completes.
+	{
+		nload := 340
+		xs := []interface{}{map[string]interface{}{"v": c03V("h", "L", nil)}, map[string]interface{}{"v": c03V("a", "L", nil)}}
+		for i := 0; i < nload; i++ {
+			xs = append(xs, map[string]interface{}{"e": c03E(fmt.Sprintf("b%03d", i), "L", "h", "a", nil)})
+		}
+		t := map[string]interface{}{"op": "bulk", "g": "g1", "xs": xs}
+		for k := 0; k < 16; k++ {
+			emit(reset)
+			emit(map[string]interface{}{"op": "addGraph", "g": "g1"})
+			o := emit(c04Crash(k, t))
+			emit(c03ObserveWide)
+			emit(map[string]interface{}{"op": "weak"})
+			r.Count("crash_cases")
+			r.Count("crash_bulkload")
+			if k > 0 {
+				r.NonTrivial(fmt.Sprintf("bulkload-%d", k))
+			}
+			if ab, _ := o["aborted"].(bool); !ab {
+				r.Dist[fmt.Sprintf("writes_bulkload:%d", k)]++
+				break
+			}
+		}
+	}
 	r.Dist["crash_states"] = len(states)
 	r.Exhaustive = false
 }
